@@ -560,7 +560,7 @@ pub fn run(opts: Opts) -> i32 {
     let report = Report::new("C12", "exploration", opts.clone());
     report.set_rule(
         "every patch of <=2 ops (<=3 over a reduced op set in thorough) from {Add p body, Delete p, Update p [Move q] hunks} with \
-         p,q in {a,b,d/c,e/f}, 12 hunk lists over lines {x,y,z,w,''}, plus 16 malformed envelopes, applied to every workspace state \
+         p,q in {a,b,d/c,e/f,a/z (parent is a file)}, 12 hunk lists over lines {x,y,z,w,''}, plus 16 malformed envelopes, applied to every workspace state \
          (a in 9 contents incl. empty/CRLF/no-final-newline/invalid UTF-8/mixed; b, d/c from a tier-dependent subset); a case is \
          distinct by (workspace state, patch text); non-trivial = the patch parses (reference reaches the op loop)",
     );
@@ -573,7 +573,8 @@ pub fn run(opts: Opts) -> i32 {
     }
     std::panic::set_hook(Box::new(|_| {}));
     let tier = report.tier();
-    let paths = ["a", "b", "d/c", "e/f"];
+    // "a/z": its parent is a regular file in every state where a exists (creation fails half-way)
+    let paths = ["a", "b", "d/c", "e/f", "a/z"];
     let bodies: Vec<Vec<String>> = vec![vec![], vec!["z".into()], vec!["z".into(), "".into(), "w".into()]];
     let hunks = hunk_set();
     let singles = single_ops(&paths, &bodies, &hunks);
